@@ -46,16 +46,26 @@ func (vc *VC) buildQuery(o *Obligation) string {
 	for _, p := range o.PC {
 		tokenizeSyms(p, need)
 	}
+	// axioms are included only when they talk about a declared symbol the query already mentions (relevance closure);
+	// an axiom over symbols that occur nowhere else cannot contribute to a refutation
+	type ax struct {
+		text string
+		syms map[string]bool
+		used bool
+	}
+	var axs []*ax
 	for _, a := range vc.globalAxioms {
-		tokenizeSyms(a, need)
+		x := &ax{text: a, syms: map[string]bool{}}
+		tokenizeSyms(a, x.syms)
+		axs = append(axs, x)
 	}
 	for _, a := range vc.axiomFacts {
-		tokenizeSyms(a, need)
+		x := &ax{text: "(assert " + a + ")", syms: map[string]bool{}}
+		tokenizeSyms(a, x.syms)
+		axs = append(axs, x)
 	}
-	// close under definitions
-	var usedDefs []string
-	changed := true
 	seenDef := map[string]bool{}
+	changed := true
 	for changed {
 		changed = false
 		for name, d := range vc.defOf {
@@ -65,7 +75,27 @@ func (vc *VC) buildQuery(o *Obligation) string {
 				changed = true
 			}
 		}
+		for _, x := range axs {
+			if x.used {
+				continue
+			}
+			rel := false
+			for sname := range x.syms {
+				if vc.declared[sname] && need[sname] && sname != "dyntype" && sname != "alloc0" {
+					rel = true
+					break
+				}
+			}
+			if rel {
+				x.used = true
+				for sname := range x.syms {
+					need[sname] = true
+				}
+				changed = true
+			}
+		}
 	}
+	var usedDefs []string
 	for _, d := range vc.defs {
 		// keep original order
 		f := strings.Fields(d)
@@ -83,12 +113,11 @@ func (vc *VC) buildQuery(o *Obligation) string {
 			b.WriteString("\n")
 		}
 	}
-	for _, a := range vc.globalAxioms {
-		b.WriteString(a)
-		b.WriteString("\n")
-	}
-	for _, a := range vc.axiomFacts {
-		b.WriteString("(assert " + a + ")\n")
+	for _, x := range axs {
+		if x.used {
+			b.WriteString(x.text)
+			b.WriteString("\n")
+		}
 	}
 	for _, d := range usedDefs {
 		b.WriteString(d)
